@@ -275,6 +275,10 @@ class Aggregation:
             self.finalize,
             self.fill_value,
             self.dtype,
+            # set per call by _initialize_aggregation: two calls differing only in
+            # these must not produce graphs with equal key names
+            self.finalize_kwargs,
+            self.min_count,
         )
 
     def __repr__(self) -> str:
